@@ -26,6 +26,22 @@ func VH_C17_Forward() {
 		engs = append(engs, e)
 		m.tableEngines.Store(vhTableIDs[k], TableEngine(e))
 	}
+	// a host callback running inside the engine operation may look any table up through the
+	// manager (every manager method starts with that lookup); what it sees is not asserted, but
+	// whatever the manager remembers from it must not change the outcome below
+	reentered := false
+	for k := 0; k < T; k++ {
+		engs[k].reenter = func() {
+			if verifrt.Bool("host.reenters") && !reentered {
+				reentered = true
+				m.GetTableEngine(vhTableIDs[verifrt.IntRange("host.tid", 0, T)])
+			}
+		}
+	}
+	// lookups before the call under test (the manager may remember them)
+	if verifrt.Bool("host.before") {
+		m.GetTableEngine(vhTableIDs[verifrt.IntRange("host.tid0", 0, T)])
+	}
 	which := verifrt.IntRange("tid", 0, T) // T = unknown id
 	tid := vhTableIDs[which]
 	x := &vhMgrArgs{
